@@ -347,6 +347,14 @@ type FaultInjector struct {
 // effect.
 var ErrClassNames = []string{"internal-error", "server-timeout", "timeout", "too-many-requests", "service-unavailable"}
 
+// WithErrClasses makes every error-before outcome of f on store s answer with
+// a class of API error chosen by the explorer.
+func (f *FaultInjector) WithErrClasses(s *simkube.Store) *FaultInjector {
+	f.ErrClasses = ErrClassNames
+	s.ErrBeforeFn = f.ErrBefore
+	return f
+}
+
 // ErrBefore is a simkube.Store.ErrBeforeFn.
 func (f *FaultInjector) ErrBefore(c simkube.Call) error {
 	e := f.nextErr
